@@ -156,7 +156,7 @@ func cmdProp(args []string) {
 			fail(fmt.Sprintf("%s#subset%d", key, i+1), map[string]any{"error": "function left the verifiable subset: " + e}, true)
 		}
 	}
-	scfg := &SolverCfg{TimeoutS: 10, Seed: seed, Dir: dir, Solvers: []string{"z3new", "z3", "cvc5"}, Par: 5}
+	scfg := &SolverCfg{TimeoutS: 20, Seed: seed, Dir: dir, Solvers: []string{"z3new", "z3", "cvc5"}, Par: 5}
 	if *tier == "thorough" {
 		scfg.TimeoutS = 60
 		scfg.All = true
